@@ -493,9 +493,19 @@ class World:
     """A loaded world: scratch dir + RunnerPayload; `close()` removes every trace."""
 
     def __init__(self, spec: Dict[str, Any], gens=None, real_handlers: bool = False, end_steps: int = 2000,
-                 builtin_first: bool = False, via_cosim: bool = False):
+                 builtin_first: bool = False, via_cosim: bool = False, fixed_dir: bool = False):
         self.spec = spec
-        self.dir = new_scratch()
+        if fixed_dir:
+            # the same scenario path as the previous fixed_dir world of this process: a user who edits the input files and loads again
+            import os
+
+            from hv.base import SCRATCH_ROOT
+
+            self.dir = Path(SCRATCH_ROOT) / f"hv-reload-{os.getpid()}"
+            shutil.rmtree(self.dir, ignore_errors=True)
+            self.dir.mkdir(parents=True)
+        else:
+            self.dir = new_scratch()
         try:
             self.scenario = write_world(spec, self.dir, end_steps=end_steps)
             if via_cosim:
